@@ -15,6 +15,25 @@
 using namespace powh;
 namespace en = ephemeralnet;
 
+// Where the real solvers start their search (seed -> first 64-bit draw of std::mt19937_64), if the tree still derives it this way; used
+// only to FIND inputs whose search walks across a power-of-two boundary of the nonce (seek), never to judge anything.
+namespace ephemeralnet {
+template <class P> static std::optional<std::uint64_t> verif_hs_start(const P& a, const P& b, std::uint32_t pub) {
+    if constexpr (requires { derive_handshake_seed(a, b, pub); }) {
+        std::mt19937_64 g(derive_handshake_seed(a, b, pub));
+        std::uniform_int_distribution<std::uint64_t> d(0, std::numeric_limits<std::uint64_t>::max());
+        return d(g);
+    } else { return std::nullopt; }
+}
+template <class A> static std::optional<std::uint64_t> verif_ann_start(const A& payload) {
+    if constexpr (requires { derive_pow_seed(payload); }) {
+        std::mt19937_64 g(derive_pow_seed(payload));
+        std::uniform_int_distribution<std::uint64_t> d(0, std::numeric_limits<std::uint64_t>::max());
+        return d(g);
+    } else { return std::nullopt; }
+}
+}  // namespace ephemeralnet
+
 static en::protocol::AnnouncePayload announce_payload(const Fields& f, std::uint64_t nonce) {
     en::protocol::AnnouncePayload p;
     p.chunk_id = arr32(fld(f, "cid"));
@@ -99,6 +118,31 @@ int main(int argc, char** argv) {
         } else if (c.op == "case") {
             const auto s = c.s("surface");
             run_case(line, c, s == "handshake" ? hs : s == "announce" ? ann : s == "store" ? store : (die("unknown surface " + s), hs));
+        } else if (c.op == "seek") {
+            // seek surface=handshake|announce k=<bits> span=<n> d=<difficulty> tries=<n> f.<fields>: vary the last 8 bytes of the responder /
+            // announcing peer id until the solver's walk starts within `span` below a multiple of 2^k, then run an ordinary case on that input
+            const auto s = c.s("surface");
+            const long k = c.i("k", 32), span = c.i("span", 3000);
+            const std::uint64_t mask = k >= 64 ? ~0ull : ((1ull << k) - 1);
+            Fields f = read_fields(c, s);
+            const std::string vary = s == "handshake" ? "resp" : "peer";
+            bool found = false; long long tried = 0;
+            for (long long i = 0; i < c.i("tries", 6000000) && !found; ++i, ++tried) {
+                for (auto& kv : f) if (kv.first == vary) { const Bytes t = be64(static_cast<std::uint64_t>(i) * 0x9E3779B97F4A7C15ull + 1); std::copy(t.begin(), t.end(), kv.second.end() - 8); }
+                std::optional<std::uint64_t> st;
+                if (s == "handshake") st = en::verif_hs_start(arr32(fld(f, "init")), arr32(fld(f, "resp")), pub_of(f));
+                else st = en::verif_ann_start(announce_payload(f, 0));
+                if (!st.has_value()) break;
+                const std::uint64_t below = (mask - (*st & mask)) + 1;      // steps until the low k bits wrap
+                found = below <= static_cast<std::uint64_t>(span);
+            }
+            ev::Ev("seek").i("src", line).s("surface", s).i("k", k).i("found", found ? 1 : 0).i("tried", tried).emit();
+            if (found) {
+                ev::Cmd c2 = c;
+                c2.op = "case";
+                for (const auto& kv : f) if (kv.first == vary) { std::string hx; static const char* dg = "0123456789abcdef"; for (auto b : kv.second) { hx.push_back(dg[b >> 4]); hx.push_back(dg[b & 15]); } c2.kv["f." + vary] = hx; }
+                run_case(line, c2, s == "handshake" ? hs : ann);
+            }
         } else if (c.op == "tok") {
             run_tok(line, c, tok);
         } else {
